@@ -1,5 +1,6 @@
 """C17 - resampling and power-law utilities conserve counts and honour their bounds."""
 from .. import AnalysisBroken
+from ..eff import check_pure_params
 from ..libmodels import LIB_FACTS
 from ..rules import Equiv, canon_params, check_equiv, rewrite, std_rewrites, where_of
 from ..ssa import apply_lam
@@ -111,6 +112,9 @@ def run(r):
               "scipy.optimize.minimize_scalar(f, bounds=, method='bounded') returns a result with .success and .x, a local minimiser of f within the bounds",
               "paper: for r in [0,1), alpha > 1, xmin >= 1/2: (xmin-1/2)(1-r)^(-1/(alpha-1)) + 1/2 >= xmin, so its floor is >= xmin for integer xmin",
               "exact arithmetic (no floating point)")
+    # purity first: cheap, robust, and a recorded violation takes precedence over a later 'cannot decide'
+    check_pure_params(r, "C17-PURE", [M + "powerlaw_sample", M + "subsample", "pyrepseq.distance.downsample", M + "powerlaw_mle_alpha", M + "_discrete_loglikelihood"])
+    rep.floor("C17-PURE", 12)
     targets = [("powerlaw_sample", M, "powerlaw_sample == floor((xmin-1/2)(1-r)^(-1/(alpha-1)) + 1/2) with r = numpy.random.rand(int(size))"),
                ("subsample", M, "subsample draws int(n) items without replacement (no p=) from the unpacked population and returns numpy.unique(sample, return_counts=True) unmodified"),
                ("downsample", "pyrepseq.distance.", "downsample: unchanged object if maxseqs/seqs is None or len <= maxseqs; DataFrame.sample(n=maxseqs); else numpy choice without replacement"),
